@@ -689,6 +689,54 @@ def l2_upgrade(ck, th, seed):
                        'sending probe / UPGRADE / wrong frames or going away: every primitive is one '
                        'step of EioQueueFineUp; final queue, counter, flags, deliveries per transport '
                        'must match', ntot, nacc, completed_upgrades=nup)
+    # ---- spec -> code: TLC schedules of EioQueueFineUpSim replayed on the real Server ----------
+    sconsts = up_consts(4, MaxMsg=9, Cap=16, SerialPolls='FALSE', WellBehaved='FALSE')
+    cfg = tlc.cfg_text(spec='SimSpec', constants=sconsts, constraints=['EmitSchedule'])
+    r = tlc.run('EioQueueFineUpSim', cfg, simulate='num=%d' % (800 if th else 200), depth=140,
+                workers=1, seed=seed + 9, timeout=900, constants=sconsts)
+    if r.error:
+        raise MachineryError('EioQueueFineUpSim simulation failed: %s\n%s' % (r.error, r.out[-1500:]))
+    ck.add_tlc(r, 'simulation of EioQueueFineUpSim: behaviours up to points where no task can move, '
+                  'with schedule')
+    seen, i, txt = {}, 0, r.out
+    while True:
+        i = txt.find('<< "SCHEDULE"', i)
+        if i < 0:
+            break
+        j = _balanced(txt, i)
+        key, i = txt[i:j], j
+        if key not in seen:
+            seen[key] = tlc.parse_tla_value(key)
+    nrep = nsame = nupg = 0
+    for key, vv in seen.items():
+        sched, mq, munf, mug, mud, mpd, mwd, msent, mpc = vv[1:10]
+        nrep += 1
+        try:
+            f = l2.replay_up_schedule(sched)
+        except RuntimeError as e:
+            ck.violation('the real Server cannot follow a TLC schedule of EioQueueFineUp: %s' % e,
+                         {'schedule': sched, 'kind': 'l2-up-schedule'})
+            continue
+        pcs = mpc if isinstance(mpc, list) else [mpc[k] for k in sorted(mpc)]
+        same = (f['q'], f['unf'], f['upgrading'], f['upgraded'], f['pdeliv'], f['wdeliv'], f['sent']) == \
+            (list(mq), munf, mug, mud, list(mpd), list(mwd), msent) and \
+            all(f['done'].get(k + 1, False) == (pcs[k] == 'done') for k in range(len(pcs)))
+        nsame += bool(same)
+        nupg += bool(mud)
+        if not same and nrep - nsame <= 3:
+            ck.violation('under a TLC schedule of the upgrade the real Server ends with %r, '
+                         'EioQueueFineUp with queue %r counter %r flags %r/%r polling %r websocket %r '
+                         'sent %r pcs %r' % (f, mq, munf, mug, mud, mpd, mwd, msent, pcs),
+                         {'schedule': sched, 'kind': 'l2-up-schedule'})
+        ck.distinct(['l2upsched', [(e['p'], e['k']) for e in sched]])
+    if nrep < 20:
+        raise MachineryError('vacuity: only %d behaviours came out of the upgrade simulation' % nrep)
+    ck.add_conformance('spec -> code at L2 (upgrade): behaviours of EioQueueFineUp generated by TLC, '
+                       'each replayed on the real threaded Server under exactly its schedule (scripted '
+                       'hub; the frames of the client delivered where the schedule says, also between '
+                       'two steps of the upgrade request); queue, counter, both flags, deliveries per '
+                       'transport, accepted sends and the set of finished tasks must equal the model',
+                       nrep, nsame, behaviours_with_completed_upgrade=nupg)
 
 
 def replay_l2(pid, rp):
